@@ -114,6 +114,45 @@ func scenario(res *evid.Result, idx int, root string) {
 	for k := 0; k < r.Intn(3); k++ {
 		keep = append(keep, gen.Function(r, fmt.Sprintf("N%d", k), gen.SigII, 3+r.Intn(6)))
 	}
+	if idx%8 == 0 {
+		// functions beyond the fingerprinter's size guard (they all carry the same marker
+		// instead of a fingerprint): one is only renamed, one is removed, an unrelated one of
+		// another shape is added
+		bigIfs := func(name string, n int) gen.Func {
+			var b strings.Builder
+			fmt.Fprintf(&b, "func %s(a int, b int) (res int) {\n", name)
+			for i := 0; i < n; i++ {
+				fmt.Fprintf(&b, "\tif a == %d {\n\t\tres += b + %d\n\t}\n", i%40, i%7)
+			}
+			b.WriteString("\treturn res\n}\n")
+			return gen.Func{Name: name, Sig: gen.SigII, Text: b.String(), Tags: []string{"oversized"}}
+		}
+		bigLoops := func(name string, n int) gen.Func {
+			var b strings.Builder
+			fmt.Fprintf(&b, "func %s(a int, b int) (res int) {\n", name)
+			for i := 0; i < n; i++ {
+				fmt.Fprintf(&b, "\tfor i := 0; i < a&3; i++ {\n\t\tres ^= h1(i, b)\n\t}\n")
+			}
+			b.WriteString("\treturn res\n}\n")
+			return gen.Func{Name: name, Sig: gen.SigII, Text: b.String(), Tags: []string{"oversized"}}
+		}
+		base.Funcs = append(base.Funcs, bigIfs("BigA", 2600), bigLoops("BigB", 1800))
+		ren := bigIfs("BigARen", 2600)
+		bigBranches := func(name string, n int) gen.Func {
+			var b strings.Builder
+			fmt.Fprintf(&b, "func %s(a int, b int) (res int) {\n", name)
+			for i := 0; i < n; i++ {
+				fmt.Fprintf(&b, "\tif a > %d {\n\t\tres += h2(a, %d)\n\t} else {\n\t\tres -= len(hs1(\"x\")) + b\n\t}\n", i%50, i%9)
+			}
+			b.WriteString("\treturn res\n}\n")
+			return gen.Func{Name: name, Sig: gen.SigII, Text: b.String(), Tags: []string{"oversized"}}
+		}
+		keep = append(keep, ren, bigBranches("BigC", 1800))
+		// BigC (call-heavy branches, no loops) is unlike the removed BigB (1800 loops); BigA is only renamed
+		plan["BigA"], rename["BigA"] = "renamed", "BigARen"
+		plan["BigB"] = "removed"
+		res.Count("scenarios_with_oversized_functions", 1)
+	}
 	nf.Funcs = keep
 	dir := filepath.Join(root, fmt.Sprintf("s%d", idx))
 	defer os.RemoveAll(dir)
